@@ -147,3 +147,38 @@ func VH_C18_access() {
 	zzverif.Assert((gotStatus == 0 && gotSize == 0) || (gotStatus == 404 && gotSize == 0) || (gotStatus == 200 && gotSize == 3) || (gotStatus == 201 && gotSize == 3), "size is the number of body bytes accepted")
 	zzverif.Reach("C18/access")
 }
+
+// Overlapping requests (natively observable): request A's final handler serves request B through
+// the SAME handler chain before A logs — the sequential equivalent of B arriving while A is still
+// being handled. A's event must still carry A's values.
+func VH_C18_overlap() {
+	out := &vLines{}
+	base := zerolog.New(out).With().Str("base", "b").Logger()
+	which := zzverif.Choice(3)
+	mask := []int{1 << 1, 1 << 5, 0x7fff}[which] // method / user-agent / all handlers
+	a := vReq{method: "GET", remote: "10.0.0.1:1111", host: "a.example:80", proto: "HTTP/1.1", ua: "agentA", ref: "refA", path: "/a", custom: "customA"}
+	b := vReq{method: "POST", remote: "10.0.0.2:2222", host: "b.example:81", proto: "HTTP/2.0", ua: "agentB", ref: "refB", path: "/b", custom: "customB"}
+	var chain http.Handler
+	depth := 0
+	final := http.HandlerFunc(func(w http.ResponseWriter, r *http.Request) {
+		if depth == 0 {
+			depth++
+			vServe(chain, b, "") // B is served completely while A is in flight
+		}
+		FromRequest(r).Info().Msg("served")
+	})
+	chain = vChain(base, mask, final)
+	vServe(chain, a, "")
+	zzverif.Assert(len(out.lines) == 2, "two events")
+	lb, la := out.lines[0], out.lines[1] // B logs first (inner), then A
+	has := func(line []byte, s string) bool { return zzverif.ContainsBytes(line, []byte(s)) }
+	zzverif.Assert(!has(la, "POST") && !has(la, "agentB") && !has(la, "10.0.0.2") && !has(la, "/b\""), "overlap: request A's event carries none of the values of request B that was served in between")
+	zzverif.Assert(!has(lb, "GET") && !has(lb, "agentA") && !has(lb, "10.0.0.1"), "overlap: request B's event carries none of request A's values")
+	if mask&(1<<1) != 0 {
+		zzverif.Assert(has(la, `"method":"GET"`) && has(lb, `"method":"POST"`), "overlap: each event carries its own method")
+	}
+	if mask&(1<<5) != 0 {
+		zzverif.Assert(has(la, `"ua":"agentA"`) && has(lb, `"ua":"agentB"`), "overlap: each event carries its own user agent")
+	}
+	zzverif.Reach("C18/overlap")
+}
